@@ -27,7 +27,7 @@ theorem upd_apply {α β : Type} [DecidableEq α] (f : α → β) (a : α) (b : 
 
 def contentOk (pr : Params) (pc : PC) (n : Inode) : Prop :=
   match pc with
-  | .fetch k => k < pr.nPack ∧ n.chunks = (written pr).take k
+  | .fetch k => k ≤ pr.nPack ∧ n.chunks = (written pr).take k
   | .write k => k < pr.nPack ∧ n.chunks = (written pr).take k
   | .flush => n.chunks = (written pr).take pr.nPack
   | .close true => n.chunks = written pr
@@ -186,7 +186,7 @@ theorem exec_working (h : Inv prog s) :
   have h1 := h.working p'
   have h3 := h.working p
   unfold exec
-  split <;> simp only [setPc, modInode, nextFetch] <;> (repeat' split) <;> simp_all [upd_apply] <;> grind
+  split <;> simp only [setPc, modInode, afterFetch] <;> (repeat' split) <;> simp_all [upd_apply] <;> grind
 
 theorem exec_early (h : Inv prog s) :
     ∀ p', ((exec (prog p) s p f).procs p').pc.early = true →
@@ -196,7 +196,7 @@ theorem exec_early (h : Inv prog s) :
   have h3 := h.early p
   have h4 := h.working p
   unfold exec
-  split <;> simp only [setPc, modInode, nextFetch] <;> (repeat' split) <;> simp_all [upd_apply] <;> grind
+  split <;> simp only [setPc, modInode, afterFetch] <;> (repeat' split) <;> simp_all [upd_apply] <;> grind
 
 theorem exec_nextIno_le : s.nextIno ≤ (exec (prog p) s p f).nextIno := by
   unfold exec
@@ -212,7 +212,7 @@ theorem exec_content_self (h : Inv prog s) :
   have t1 := take_succ_drop (written (prog p))
   have t2 := List.take_append_drop (prog p).nPack (written (prog p))
   unfold exec
-  split <;> simp only [setPc, modInode, nextFetch] <;> (repeat' split) <;> simp_all [upd_apply, contentOk] <;> grind
+  split <;> simp only [setPc, modInode, afterFetch] <;> (repeat' split) <;> simp_all [upd_apply, contentOk] <;> grind
 
 theorem exec_content (h : Inv prog s) :
     ∀ p', ((exec (prog p) s p f).procs p').created = true →
@@ -237,7 +237,7 @@ theorem exec_linked_self (h : Inv prog s) :
   have h5 := h.working p
   have h6 := h.early p
   unfold exec
-  split <;> simp only [setPc, modInode, nextFetch] <;> (repeat' split) <;> simp_all [upd_apply, contentOk] <;>
+  split <;> simp only [setPc, modInode, afterFetch] <;> (repeat' split) <;> simp_all [upd_apply, contentOk] <;>
     grind [finalResult]
 
 theorem exec_linked (h : Inv prog s) :
@@ -268,7 +268,7 @@ theorem exec_names_own (h : Inv prog s) :
   have h5 := h.working p
   have h6 := h.early p
   unfold exec
-  split <;> simp only [setPc, modInode, nextFetch] <;> (repeat' split) <;> simp_all [upd_apply] <;>
+  split <;> simp only [setPc, modInode, afterFetch] <;> (repeat' split) <;> simp_all [upd_apply] <;>
     grind [finalResult]
 
 theorem exec_reader_self (h : Inv prog s) :
@@ -282,7 +282,7 @@ theorem exec_reader_self (h : Inv prog s) :
   unfold readerOk at h1 ⊢
   revert h2 h3 t1 t2
   unfold exec
-  split <;> simp only [setPc, modInode, nextFetch] <;> (repeat' split) <;> simp_all [upd_apply] <;>
+  split <;> simp only [setPc, modInode, afterFetch] <;> (repeat' split) <;> simp_all [upd_apply] <;>
     grind [finalResult]
 
 theorem exec_reader (h : Inv prog s) :
@@ -308,7 +308,7 @@ theorem exec_readers (h : Inv prog s) :
   · subst hp
     revert h1
     unfold exec
-    split <;> simp only [setPc, modInode, nextFetch] <;> (repeat' split) <;> simp_all [upd_apply]
+    split <;> simp only [setPc, modInode, afterFetch] <;> (repeat' split) <;> simp_all [upd_apply]
   · rw [exec_procs_ne _ hp]; exact h1
 
 theorem exec_inv (h : Inv prog s) : Inv prog (exec (prog p) s p f) where
